@@ -221,8 +221,12 @@ fn guarded<T>(f: impl FnOnce() -> T) -> Result<T, (String, String)> {
 }
 
 fn is_lmdb_text(e: &str) -> bool {
+    // errors of the shard layer ("MDBShardError", names ending in ".mdb" / ".mdb_temp") are NOT LMDB's
+    if e.contains("MDBShardError") || e.contains(".mdb") {
+        return false;
+    }
     let l = e.to_ascii_lowercase();
-    l.contains("heed") || l.contains("lmdb") || l.contains("mdb_") || l.contains("opening db")
+    l.contains("heed") || l.contains("lmdb") || e.contains("MDB_") || e.contains("Mdb(") || l.contains("opening db")
 }
 
 /// Everything the restart checks of one crash state need to know.
